@@ -152,13 +152,13 @@ def simulate_cli(ctx, kind, db, params, observations):
     if ctx.rng.random() < 0.25:
         # no -o: the result goes to standard output
         buf = io.StringIO()
-        with contextlib.redirect_stdout(buf), common.time_limit(300):     # (seconds, normally)
+        with contextlib.redirect_stdout(buf), common.time_limit(120):     # (seconds, normally)
             r = cli.run(["simulate", kind, db, pfile] + (["--observations"] if observations else []))
         ctx.count("simulate_to_stdout")
         return r, buf.getvalue()
     argv = ["simulate", kind, db, pfile, "-o", out] + (["--observations"] if observations else [])
     # (the simulate and pestfiles sub-commands take no -v / --logfile options)
-    with common.time_limit(300):
+    with common.time_limit(120):
         r = cli.run(argv)
     # argparse FileType handles are left open by the tool: the content is flushed at interpreter exit only;
     # force it by closing leaked files through garbage collection
